@@ -44,6 +44,20 @@ pub fn gen_cfg(r: &mut Rng, p: &CfgProfile) -> WorldCfg {
     cfg
 }
 
+/// With probability num/den turn an async configuration into a full-stack one: the real lora-phy adapter, mode
+/// layer and chip driver on a simulated chip (board 0, default radio buffer, buffer = lead time).
+pub fn maybe_phy(r: &mut Rng, cfg: &mut WorldCfg, num: u64, den: u64) {
+    if cfg.frontend == Frontend::Nb || !r.chance(num, den) {
+        return;
+    }
+    use physim::rig::ChipKind;
+    let chip = *r.pick(&[ChipKind::Sx1261, ChipKind::Sx1262, ChipKind::Stm32wl, ChipKind::Sx1272, ChipKind::Sx1276]);
+    cfg.phy = Some(crate::stack::PhyCfg { chip, tcxo: r.chance(1, 2), dcdc: r.chance(1, 2), rx_boost: r.chance(1, 2), tx_boost: r.chance(1, 2) });
+    cfg.board = 0;
+    cfg.small_buffer = false;
+    cfg.buffer_ms = None;
+}
+
 /// A small authentic downlink: fresh counter, optional application data.
 pub fn frame_ok(r: &mut Rng) -> FrameSpec {
     let mut d = DataSpec::plain(1);
